@@ -38,6 +38,13 @@ registry! {
     h_api::h_unwrap_twin,
     h_api::h_nest_n2,
     h_api::h_nest_twin,
+    h_count::h_sat_strong,
+    #[cfg(feature = "weak-ptrs")]
+    h_count::h_sat_weak,
+    h_count::h_counter_kernel,
+    #[cfg(feature = "weak-ptrs")]
+    h_count::h_weak_kernel,
+    h_count::h_count_twin,
     #[cfg(feature = "weak-ptrs")]
     h_cyclic::h_cyclic,
     #[cfg(feature = "weak-ptrs")]
